@@ -16,10 +16,12 @@ def plan(tier, seed):
     args = common + ["--guard", 150000 if quick else 400000, "--max-threads", 4 if quick else 6]
     if quick:
         # one sub-generator per shard: rapidcheck ramps the size from 0 within each run, so few long runs waste fewer cases on
-        # degenerate (empty choice stream) histories than many short ones: 8 x 10 general, 5 x 10 'wrap', 3 x 8 'tb' = 154 cases
-        shards = [dict(bin=("opt", "c14"), args=args + ["--cases", 10, "--wrap", 0, "--tb", 0]) for _ in range(8)]
-        shards += [dict(bin=("opt", "c14"), args=args + ["--cases", 10, "--wrap", 10, "--tb", 0]) for _ in range(5)]
-        shards += [dict(bin=("opt", "c14"), args=args + ["--cases", 8, "--wrap", 0, "--tb", 8]) for _ in range(3)]
+        # degenerate (empty choice stream) histories than many short ones: 7 x 10 general, 4 x 10 'wrap', 3 x 8 'tb', 2 x 8 'salt' = 150 cases
+        shards = [dict(bin=("opt", "c14"), args=args + ["--cases", 10, "--wrap", 0, "--tb", 0, "--salt", 0]) for _ in range(7)]
+        shards += [dict(bin=("opt", "c14"), args=args + ["--cases", 10, "--wrap", 10, "--tb", 0, "--salt", 0]) for _ in range(4)]
+        shards += [dict(bin=("opt", "c14"), args=args + ["--cases", 8, "--wrap", 0, "--tb", 8, "--salt", 0]) for _ in range(3)]
+        # 'salt': small tables whose size is not a power of two, first search under non-zero (analysis) contempt, large probe
+        shards += [dict(bin=("opt", "c14"), args=args + ["--cases", 8, "--wrap", 0, "--tb", 0, "--salt", 8]) for _ in range(2)]
     else:
         shards = [dict(bin=("opt", "c14"), args=args + ["--cases", cases]) for _ in range(16)]
     scale = 1 if quick else 25
